@@ -126,7 +126,9 @@ PROPS = {
                         "composition theorems as hypotheses",
                         "agreed domain of the close rule: each Connection header line carries one option (no comma / tab); "
                         "a client does not pipeline behind a closing request whose response exceeds 32 KB (RFC 7230 6.6 reset hazard)",
-                        "the nbhttp client is exercised over TLS 1.2 (llib v1.2.4's TLS 1.3 client handshake fails on this toolchain, outside nbio) "
+                        "the nbhttp client is exercised over TLS 1.2 (llib v1.2.4's TLS 1.3 client handshake fails on this toolchain, outside nbio); "
+                        "llib's close_notify peek drops the last plaintext when the alert record arrives in two reads (known finding "
+                        "c10-tls-alert-split-drops-tail, tagged only when the executor's TLS record tracker saw that split on the connection) "
                         "and without HEAD (its response parser does not know the request method)",
                         "timing: a stalled case is re-run twice before it is reported; content failures are reported at once; an attempt "
                         "with a failure during which the executor's environment canary (sleeping goroutine, plain-net loopback echo, "
